@@ -70,6 +70,8 @@ def fd_weights_all(x, x0=0, n=1):
     m = len(x)
     _assert(n < m, 'len(x) must be larger than n')
 
+    # integer typed nodes: the products of the node differences overflow silently in integer arithmetic
+    x = np.asarray(x, dtype=float)
     weights = np.zeros((m, n + 1))
     _fd_weights_all(weights, x, x0, n)
     return weights.T
